@@ -240,6 +240,7 @@ type mblock struct {
 	bc        *statecache.BlockCache
 	index     int
 	planned   map[string]entry // C08: what the block will have written once committed
+	twinOf    *mblock          // a second BlockCache object for the hash of an already committed block (a re-executed block)
 }
 
 type mtxn struct {
